@@ -228,6 +228,18 @@ type Template struct {
 var Templates = []Template{
 	{"infix-block-last", "(cond (== n 0) a {k = n + 1; CALL})", true},
 	{"cond-in-infix", "(cond (== n 0) a {(cond (> n 0) CALL 9)})", true},
+	{"infix-single-statement", "(cond (== n 0) a {CALL})", true},
+	{"infix-def-then-call", "(cond (== n 0) a {(def k 1); CALL})", true},
+	{"infix-two-assignments-then-call", "(cond (== n 0) a {k = n - 1; j = k + 1; (f k a)})", true},
+	{"infix-call-statement-then-call", "(cond (== n 0) a {(+ n 1); CALL})", true},
+	{"infix-nested-blocks", "(cond (== n 0) a {k = 1; {j = 2; CALL}})", true},
+	{"infix-block-in-let", "(cond (== n 0) a (let [q n] {k = q - 1; (f k a)}))", true},
+	{"infix-block-in-and", "(cond (== n 0) a (and true {k = 7; CALL}))", true},
+	{"infix-whole-body", "{m = n; (cond (== m 0) a {k = m - 1; (f k a)})}", true},
+	{"infix-expression-arguments", "(cond (== n 0) a (f {n - 1} a))", true},
+	{"infix-nonlast-call-statement", "(cond (== n 0) 0 {(f (- n 1) a); 7})", false},
+	{"infix-nonlast-call-after-assignment", "(cond (== n 0) 0 {k = 3; (f (- n 1) a); k})", false},
+	{"infix-assignment-of-call", "(cond (== n 0) 0 {k = 1; k = (f (- n 1) a); k + 1})", false},
 	{"assert-arg", "(cond (== n 0) true (assert CALL))", false},
 	{"syntax-quote-unquote", "(cond (== n 0) (quote (z)) ^(x ~CALL))", false},
 	{"syntax-quote-splice", "(cond (== n 0) (quote (z)) ^(x ~@CALL))", false},
@@ -269,6 +281,8 @@ func (t Template) Source(depth int, twin bool) string {
 		body = strings.ReplaceAll(body, "(f (- n 1) a 99)", "((begin f) (- n 1) a 99)")
 		body = strings.ReplaceAll(body, "(f (- n 1))", "((begin f) (- n 1))")
 		body = strings.ReplaceAll(body, "(f (- n 1) CALL)", "((begin f) (- n 1) CALL)")
+		body = strings.ReplaceAll(body, "(f k a)", "((begin f) k a)")
+		body = strings.ReplaceAll(body, "(f {n - 1} a)", "((begin f) {n - 1} a)")
 	}
 	body = strings.ReplaceAll(body, "CALL", c)
 	return fmt.Sprintf("(defn f [n a] %s) (f %d 4)", body, depth)
